@@ -184,12 +184,34 @@ func runC18(p *an.Prog, r *an.Run, tier string) {
 			bad = append(bad, "the pool's InvalidPeers list is modified at "+p.Pos(st.Pos())+" outside strict mode: peers the pool did not declare invalid would be dropped (or declared ones kept)")
 		}
 	})
-	// strict rebuild
-	var strictAppend *ssa.Call
+	// strict rebuild: in UpdatePeers under StrictPeers, or in helpers called from there
+	strictFns := map[*ssa.Function]bool{}
 	for _, c := range an.Calls(up, false) {
-		if b, ok := c.Common().Value.(*ssa.Builtin); ok && b.Name() == "append" {
-			if boolCtrl(c.Block(), isStrict, true) {
-				if p.Derives(0, c.Common().Args[0]).HasFieldNamed("UpdateResponse", "InvalidPeers") {
+		if cal := c.Common().StaticCallee(); cal != nil && p.InRepo(cal) && len(cal.Blocks) > 0 && boolCtrl(c.Block(), isStrict, true) {
+			for _, f := range regionFuncs(p, cal) {
+				strictFns[f] = true
+			}
+		}
+	}
+	underStrict := func(in ssa.Instruction) bool {
+		if strictFns[in.Parent()] {
+			return true
+		}
+		return in.Parent() == up && boolCtrl(in.Block(), isStrict, true)
+	}
+	searchFns := []*ssa.Function{up}
+	for f := range strictFns {
+		searchFns = append(searchFns, f)
+	}
+	sortFuncs(searchFns)
+	var strictAppend *ssa.Call
+	for _, f := range searchFns {
+		for _, c := range an.Calls(f, false) {
+			if b, ok := c.Common().Value.(*ssa.Builtin); ok && b.Name() == "append" && underStrict(c.(ssa.Instruction)) {
+				if sl, ok := c.Common().Args[0].Type().Underlying().(*types.Slice); !ok || !isBasic(sl.Elem(), types.String) {
+					continue
+				}
+				if p.DerivesIn(up, 3, c.Common().Args[0]).HasFieldNamed("UpdateResponse", "InvalidPeers") {
 					strictAppend, _ = c.(*ssa.Call)
 				}
 			}
@@ -198,11 +220,12 @@ func runC18(p *an.Prog, r *an.Run, tier string) {
 	if strictAppend == nil {
 		bad = append(bad, "strict mode does not rebuild the invalid list")
 	} else {
+		sfn := strictAppend.Parent()
 		els, ok := variadicElems(strictAppend.Call.Args[1])
 		if !ok || len(els) != 1 {
 			bad = append(bad, "unrecognised strict append")
 		} else {
-			d := p.Derives(1, els[0])
+			d := p.DerivesIn(up, 3, els[0])
 			if d.CallTo(func(f *types.Func) bool { return f.Name() == "Peers" && an.RecvNamed(f) != nil && an.RecvNamed(f).Obj().Name() == "EthNode" }) == nil {
 				bad = append(bad, "strict mode does not build the invalid list from the node's local peers")
 			}
@@ -210,9 +233,9 @@ func runC18(p *an.Prog, r *an.Run, tier string) {
 		// keep-out edge: lookup hit && RemoteHost equal
 		var lookupMap ssa.Value
 		okKeep := false
-		an.AllInstrs(up, func(in ssa.Instruction) {
+		an.AllInstrs(sfn, func(in ssa.Instruction) {
 			iff, ok := in.(*ssa.If)
-			if !ok || !boolCtrl(iff.Block(), isStrict, true) {
+			if !ok || !underStrict(in) {
 				return
 			}
 			rel, ok := an.NormCond(iff.Cond)
@@ -234,7 +257,7 @@ func runC18(p *an.Prog, r *an.Run, tier string) {
 			if lk == nil || !lk.CommaOk || !isHostCall(other) {
 				return
 			}
-			lookupMap = lk.X
+			lookupMap = p.Resolve(lk.X)
 			// controlled by the hit
 			hit := false
 			for _, c := range an.ControllingIfs(iff.Block()) {
@@ -246,18 +269,11 @@ func runC18(p *an.Prog, r *an.Run, tier string) {
 			if rel.Op == token.NEQ {
 				eqSucc = 1
 			}
-			isNext := func(x ssa.Instruction) bool { _, ok := x.(*ssa.Next); return ok }
 			isApp := func(x ssa.Instruction) bool { return x == ssa.Instruction(strictAppend) }
-			isLoopHead := func(x ssa.Instruction) bool {
-				// range over a slice: the index increment phi block; approximate with: instruction is the If of the loop header
-				return false
-			}
-			_ = isNext
-			_ = isLoopHead
 			hdr := loopHeader(iff.Block())
 			atHdr := func(x ssa.Instruction) bool { return hdr != nil && x.Block() == hdr }
-			keeps := hdr != nil && pathFromBlock(up, iff.Block().Succs[eqSucc], atHdr, isApp) == nil
-			drops := hdr != nil && pathFromBlock(up, iff.Block().Succs[1-eqSucc], atHdr, isApp) != nil
+			keeps := hdr != nil && pathFromBlock(sfn, iff.Block().Succs[eqSucc], atHdr, isApp) == nil
+			drops := hdr != nil && pathFromBlock(sfn, iff.Block().Succs[1-eqSucc], atHdr, isApp) != nil
 			if hit && keeps && drops {
 				okKeep = true
 			}
@@ -270,7 +286,7 @@ func runC18(p *an.Prog, r *an.Run, tier string) {
 			if mm, ok := lookupMap.(*ssa.MakeMap); ok {
 				for _, ref := range *mm.Referrers() {
 					if mu, ok := ref.(*ssa.MapUpdate); ok {
-						dk, dv := p.Derives(3, mu.Key), p.Derives(3, mu.Value)
+						dk, dv := p.DerivesIn(up, 3, mu.Key), p.DerivesIn(up, 3, mu.Value)
 						kOK := dk.HasFieldNamed("UpdateResponse", "ActivePeers") && dk.CallTo(func(f *types.Func) bool { return f.Name() == "ID" }) != nil
 						vOK := dv.HasFieldNamed("UpdateResponse", "ActivePeers") && dv.CallTo(func(f *types.Func) bool { return f.Name() == "RemoteHost" }) != nil
 						if kOK && vOK {
